@@ -1,3 +1,4 @@
+import Secp.Proofs.DriversDerive
 import Secp.Proofs.DriversFront
 import Secp.Proofs.DriversAdaptor
 import Secp.Proofs.DriversChild
@@ -122,5 +123,28 @@ theorem fromSeed_regenerated (O : Oracles) (seed ms : Bytes) :
 
 theorem public_regenerated (e : ExtKey) : Secp.Gen.Drivers.publicGen (tup e) = DR.ok (tup e.neuter) :=
   Secp.Proofs.DriversFront.public_regenerated e
+
+
+/-- `DeriveWithIL` (the loop over the path with its accumulated tweak, a nil-able big integer) regenerated =
+    `deriveWithIL`, for every path of uint32 indices, every starting key of depth below 256 and hash oracles whose
+    RIPEMD160∘SHA256 output has at least 4 bytes — so the path-induction theorems above (`tweak…`) speak about the code -/
+theorem deriveWithIL_regenerated (O : Oracles) (hfp : ∀ x, 4 ≤ (O.hash160 x).length) (e : ExtKey)
+    (hd : e.depth < 256) (path : List Nat) (hp : ∀ i ∈ path, i < 2^32) :
+    Secp.Gen.Drivers.deriveWithILGen O (tup e) path =
+      (match deriveWithIL O e path none with | .ok (t, c) => DR.ok (t, tup c) | .error err => DR.err err) :=
+  Secp.Proofs.DriversDerive.deriveWithIL_regenerated O hfp e hd path hp
+
+/-- `Derive` regenerated = `deriveWithIL` without the tweak -/
+theorem derive_regenerated (O : Oracles) (hfp : ∀ x, 4 ≤ (O.hash160 x).length) (e : ExtKey)
+    (hd : e.depth < 256) (path : List Nat) (hp : ∀ i ∈ path, i < 2^32) :
+    Secp.Gen.Drivers.deriveGen O (tup e) path =
+      (match deriveWithIL O e path none with | .ok (_, c) => DR.ok (tup c) | .error err => DR.err err) :=
+  Secp.Proofs.DriversDerive.derive_regenerated O hfp e hd path hp
+
+/-- `FromBitcoinSeed` = `FromSeed` with the salt "Bitcoin seed" -/
+theorem fromBitcoinSeed_front (O : Oracles) (seed : Bytes) :
+    Secp.Gen.Drivers.fromBitcoinSeedGen O seed =
+      Secp.Gen.Drivers.fromSeedGen O seed [0x42, 0x69, 0x74, 0x63, 0x6f, 0x69, 0x6e, 0x20, 0x73, 0x65, 0x65, 0x64] :=
+  Secp.Proofs.DriversFront.fromBitcoinSeed_front O seed
 
 end Secp.Props.C12
